@@ -77,7 +77,7 @@ def function_targets() -> List[Tuple[Any, str, Callable]]:
     return out
 
 
-def harvest(max_programs: Optional[int] = None) -> List[Dict[str, Any]]:
+def harvest(max_programs: Optional[int] = None, stripe: int = 0, n_stripes: int = 1) -> List[Dict[str, Any]]:
     """Run corpus testcases eagerly under recorders; one recorded call per (function, call signature shape)."""
     import jax
     import jax.numpy as jnp
@@ -108,12 +108,25 @@ def harvest(max_programs: Optional[int] = None) -> List[Dict[str, Any]]:
         setattr(tgt, attr, make_rec(tgt, attr, orig))
     try:
         n = 0
+        per_component: Dict[str, int] = {}
+        selected = []
         for tp in corpus.params():
             pid = tp["pid"]
             if corpus.is_heavy(pid) or corpus.double(tp) or "_dynamic" in pid.split("/")[-1]:
                 continue
             if not (pid.startswith("primitives.") or pid.startswith("verif.gen")):
                 continue
+            comp = "/".join(pid.split("/")[:2])
+            if any(t in comp for t in ("while_loop", "fori_loop", "/scan", "/cond", "remat", "custom_")):
+                continue  # data-dependent loops may not terminate on lattice inputs; they are not call-form targets
+            per_component[comp] = per_component.get(comp, 0) + 1
+            if per_component[comp] > 4 and not pid.startswith("verif.gen"):
+                continue
+            selected.append(tp)
+        for idx, tp in enumerate(selected):
+            if idx % n_stripes != stripe:
+                continue
+            pid = tp["pid"]
             try:
                 fn = corpus.instantiate(tp)
                 _s, meta, _v = corpus.input_meta(tp)
